@@ -40,6 +40,14 @@ def run(tier: str) -> int:
     # focused alphabets (from the seeded changes the first version missed)
     ev_focus = [("add", "x==5"), ("add", "y==2"), ("add", "x<u2"), ("add", "x!=0"), ("eval", "x+y", 9, "none"), ("max", "x+y", "u", "none"), ("sol", "x+y", 7, "none"), ("min", "x", "u", "none"), ("branch",)]
     ev_exact = [("add", "x<u5"), ("add", "x&1==0"), ("add", "x!=4"), ("add", "x+y==5"), ("eval", "x", 9, "none"), ("eval", "x", 2, "none"), ("eval", "x+y", 9, "none"), ("beval", "x,y", 9, "none"), ("min", "x", "u", "none"), ("max", "x", "s", "none"), ("sol", "x", 3, "none"), ("sat", "none")]
+    # signed bounds on INT_MIN / INT_MAX (the balancer's "cannot be satisfied" shortcuts) for the approximate configurations
+    ev_sb = [("add", k) for k in ("x<=s-4", "x<s-3", "-4>=sx", "x>=s3", "x>s2", "x<=s-3", "x!=4")] + [("sat", "none"), ("eval", "x", 9, "none"), ("min", "x", "s", "none"), ("max", "x", "s", "none"), ("min", "x", "u", "none"), ("max", "x", "u", "none"), ("sol", "x", 4, "none"), ("sol", "x", 3, "none")]
+    sb_plans = [
+        ("SolverHybrid", {"exact_false": True, "approx": True}, ev_sb, 2 if tier == "quick" else 3, 2, "signed-bounds,exact=False"),
+        ("SolverVSA", {"approx": True}, ev_sb, 2 if tier == "quick" else 3, 2, "signed-bounds"),
+        ("SolverReplacementVSA", {"approx": True}, ev_sb, 2 if tier == "quick" else 3, 2, "signed-bounds"),
+        ("SolverHybrid", {}, ev_sb, 2 if tier == "quick" else 3, 2, "signed-bounds,exact"),
+    ]
     if tier == "quick":
         plan = [
             ("SolverReplacement", {}, ev_repl, 3, 3, "", False),
@@ -67,7 +75,7 @@ def run(tier: str) -> int:
             ("SolverReplacement", {}, ev_focus, 5, 3, "focus5", False),
             ("SolverHybridApprox", {"exact_true": True}, ev_exact, 4, 3, "approximate_first,exact=True"),
         ]
-    for cls, cfg, events, depth, max_adds, tag, *rest in plan:
+    for cls, cfg, events, depth, max_adds, tag, *rest in plan + sb_plans:
         t0 = time.time()
         # SolverReplacement has recorded exact failing-case sets: explore it without state merging
         H.explore(rep, PID, "bv3", cls, cfg, events, depth, max_adds=max_adds, tag=tag, merge=rest[0] if rest else True)
